@@ -2,7 +2,6 @@
 C18 (SocketMux / FifoPipe specs, TLC validation of traces recorded from a real SocketServer/SocketClient and real named pipes)."""
 from __future__ import annotations
 
-import collections
 import json
 import random
 
@@ -74,8 +73,8 @@ def c15(ck, replay=None):
                  workers=1)
 
     # L2: EVERY behaviour up to the bound, replayed into the real code for every class of the catalogue
-    behs = rx_enumerate(ck, 'documented protocol', 7 if thorough else 6)
-    bare = rx_enumerate(ck, 'with bare hops', 5 if thorough else 4, invariants=('TypeOK', 'ClassArgsKept'), properties=['HopKeepsShape'],
+    behs = rx_enumerate(ck, 'documented protocol', 8 if thorough else 6)
+    bare = rx_enumerate(ck, 'with bare hops', 6 if thorough else 4, invariants=('TypeOK', 'ClassArgsKept'), properties=['HopKeepsShape'],
                         wrap_every_hop=False)
     bare = [b for b in bare if any(a[0] == 'BareHop' for a in b)]
     nb = len(behs)
@@ -151,10 +150,8 @@ def rx_replay(ck, name, items, allb):
                      sig={'leg': 'L2', 'kind': d['kind'], 'key': d['item']['key'], 'action': d['action'].split('(')[0],
                           'what': re_sig(d['what'])})
     for h in hung[:5]:
-        again = 0
-        for _ in range(3):
-            o = ck.run_binder('remoteexc', [dict(h['item'])], extra=dict(extra, stuck_after=90), timeout=600)
-            again += 1 if o.get('hangs') else 0
+        o = ck.run_binder('remoteexc', [dict(h['item'])] * 3, extra=dict(extra, stuck_after=90), per_job=1, timeout=600)
+        again = len(o.get('hangs', []))
         if again == 3:
             ck.violation({'leg': 'L2', 'name': name, 'kind': 'hang', 'item': h['item'], 'hist': h['hist'],
                           'what': h['what'], 'beh': allb[h['item']['beh']]},
@@ -184,12 +181,11 @@ SM_TRACE_CFG = tlc.cfg_text(spec='TraceSpec', constants=dict(Params=set(), Uniqu
 
 def fp_cfg(params, invariants=FP_INV, properties=(), spec='Spec', deadlock=True, eager=False):
     return tlc.cfg_text(spec=spec, constants=dict(Params='<- ' + params, EagerReader=eager), invariants=invariants,
-                        properties=properties,
-                        deadlock=deadlock, view='NoActView')
+                        properties=properties, deadlock=deadlock, view='NoActView')
 
 
-FP_TRACE_CFG = tlc.cfg_text(spec='TraceSpec', constants=dict(Params=set(), EagerReader=False), constraint='Progress', postcondition='Report',
-                            deadlock=False)
+FP_TRACE_CFG = tlc.cfg_text(spec='TraceSpec', constants=dict(Params=set(), EagerReader=False), constraint='Progress',
+                            postcondition='Report', deadlock=False)
 
 
 def transport_conformance(ck, name, scenarios):
@@ -198,8 +194,8 @@ def transport_conformance(ck, name, scenarios):
     from mbt.bind import socketmux as SB
     items = [{'id': k + 1, 'sc': sc} for k, sc in enumerate(scenarios)]
     todo, traces, hung, errors, n_exec = list(items), [], [], [], 0
-    for _ in range(6):
-        if not todo:
+    for _ in range(8):
+        if not todo or len(hung) >= 3 or sum(1 for t in traces if t['status'] == 'crash') >= 3:
             break
         o = ck.run_binder('socketmux', todo, extra={'detsched': False}, timeout=int(SB.SCENARIO_BOUND * 3 + 600),
                           per_job=max(4, len(todo) // 16 + 1) if len(todo) > 16 else None)
@@ -208,24 +204,26 @@ def transport_conformance(ck, name, scenarios):
         hung += o.get('hangs', [])
         errors += o.get('errors', [])
         todo = o.get('unrun', [])
-    if todo:
+    crashed = [t for t in traces if t['status'] == 'crash']
+    if todo and not hung and not crashed:
         raise Machinery(f'C18 {name}: {len(todo)} scenarios could not be run')
+    if todo:
+        ck.notes.append(f'{len(todo)} scenarios not run after {len(hung)} hangs / {len(crashed)} crashes')
     if errors:
         raise Machinery(f'C18 {name}: harness error: {json.dumps(errors[0])[:3000]}')
     ck.evaluations += n_exec
-    for h in hung[:4]:
-        again = []
-        for _ in range(3):
-            o = ck.run_binder('socketmux', [{'id': h['id'], 'sc': h['sc']}], extra={'detsched': False},
-                              timeout=int(SB.SCENARIO_BOUND * 2 + 120))
-            again.append(bool(o.get('hangs')))
-            traces += o.get('traces', [])
-        if all(again):
+    for h in hung[:2]:
+        # a scenario that exceeded its generous bound counts only if it does so 3 times more, in fresh processes
+        o = ck.run_binder('socketmux', [{'id': h['id'], 'sc': h['sc']}] * 3, extra={'detsched': False}, per_job=1,
+                          timeout=int(SB.SCENARIO_BOUND * 2 + 120))
+        again = len(o.get('hangs', []))
+        traces += [t for t in o.get('traces', []) if t['status'] == 'crash']
+        if again == 3:
             ck.violation({'leg': 'L3', 'name': name, 'kind': 'hang', 'sc': h['sc'], 'detail': h['detail'],
                           'events': h['ev'][-120:]},
                          sig={'leg': 'L3', 'kind': 'hang', 'transport': h['kind']})
         else:
-            ck.notes.append(f'scenario exceeded its bound once, not reproduced 3x in fresh processes: {h["sc"]}')
+            ck.notes.append(f'scenario exceeded its bound once, reproduced {again}/3 in fresh processes: {h["sc"]}')
     sock = [t for t in traces if t['kind'] == 'socket']
     pipe = [t for t in traces if t['kind'] == 'pipe']
 
@@ -304,6 +302,12 @@ def c18(ck, replay=None):
     traps = ('Trap_ResponseBeforeRegister', 'Trap_IdReused', 'Trap_HeadBlocksFinished', 'Trap_BacklogFull')
     for t in (traps if thorough else traps[:2]):
         small.append(lambda t=t: ck.trap(t, 'SocketMuxMC', sm_cfg('Quick3', [t]), workers=4))
+    big = None
+    bigex = ThreadPoolExecutor(max_workers=1)
+    if thorough:
+        # the largest run (7e6 states) goes on beside everything else, the conformance leg included
+        big = bigex.submit(lambda: ck.l1('SocketMux/4 requests, two connections, two of them streamed', 'SocketMuxMC',
+                                         sm_cfg('Thor4a'), may_skip=('Next',), timeout=3000, workers=8))
     with ThreadPoolExecutor(max_workers=4) as ex:
         futs = [ex.submit(f) for f in small]
         ck.l1('SocketMux/3 requests, K x backlog x pending grid', 'SocketMuxMC', sm_cfg('Grid3' if thorough else 'Quick3'),
@@ -311,10 +315,8 @@ def c18(ck, replay=None):
         for f in futs:
             f.result()
     if thorough:
-        ck.l1('SocketMux/4 requests, two connections, two of them streamed', 'SocketMuxMC', sm_cfg('Thor4a'),
-              may_skip=('Next',), timeout=2400)
         ck.l1('SocketMux/4 requests streamed over one connection', 'SocketMuxMC', sm_cfg('Thor4s'),
-              may_skip=('Next', 'Return', 'Block', 'InsertWoken'), timeout=2400)
+              may_skip=('Next', 'Return', 'Block', 'InsertWoken'), timeout=2400, workers=4)
 
     # L3: the real transports
     scs = SB.gen_socket_scenarios(rnd, 400 if thorough else 64, max_r=6, random_payload=thorough)
@@ -322,6 +324,9 @@ def c18(ck, replay=None):
     rnd.shuffle(scs)
     scs.append({'kind': 'pipe_exit', 'n': 2, 'wait': 6})
     traces = transport_conformance(ck, 'real SocketServer/SocketClient over a unix socket; real named pipes between two processes', scs)
+    if big is not None:
+        big.result()
+    bigex.shutdown()
     n_re = sum(1 for t in traces if t['kind'] == 'socket' and reordered(t))
     ck.notes.append(f'{n_re} socket traces in which responses were due out of request order on some connection')
     if n_re == 0:
